@@ -22,7 +22,7 @@ func (l *Loader) reportResponseCacheError(err error) {
 	}
 }
 
-func responseCacheSelectionHash(header, footer []byte) uint64 {
+func responseCacheSelectionHash(header, footer []byte, undefinedVariables []string) uint64 {
 	d := pool.Hash64.Get()
 	defer pool.Hash64.Put(d)
 	_, _ = d.Write(header)
@@ -30,6 +30,13 @@ func responseCacheSelectionHash(header, footer []byte) uint64 {
 	// start of the footer cannot go unnoticed.
 	_, _ = d.Write([]byte{0})
 	_, _ = d.Write(footer)
+	// A variable the client left out is rendered as null, like one the client set to null, and is
+	// removed from the request only later (httpclient.UNDEFINED_VARIABLES): the subgraph gets two
+	// different requests (default value against explicit null), which must not share an entry.
+	for _, name := range undefinedVariables {
+		_, _ = d.Write([]byte{0})
+		_, _ = d.WriteString(name)
+	}
 	return d.Sum64()
 }
 
